@@ -7,7 +7,7 @@ import engine, javagen, qrun, querygen, scan
 
 N = {  # tier -> property -> number of generated queries (before variants)
     'quick': dict(C01=350, C02=350, C10=600, C11=220, C12=70, C13=120, C14=160, C15=120, C16=60),
-    'thorough': dict(C01=6000, C02=6000, C10=30000, C11=3000, C12=2500, C13=3000, C14=3000, C15=1500, C16=600),
+    'thorough': dict(C01=6000, C02=6000, C10=30000, C11=3000, C12=700, C13=2000, C14=3000, C15=1500, C16=600),
 }
 
 
